@@ -166,9 +166,10 @@ class Module(nn.Module):
                     else:
                         self.__getattr__(name).data.copy_(val.view_as(self.__getattr__(name)))
 
-            elif isinstance(val, float):
+            elif isinstance(val, (int, float)):
                 constraint = self.constraint_for_parameter_name(name)
-                if constraint is not None and not constraint.check_raw(val):
+                # (the constraint's transform needs a tensor)
+                if constraint is not None and not constraint.check_raw(torch.as_tensor(val).to(self.__getattr__(name))):
                     raise RuntimeError(
                         "Attempting to manually set a parameter value that is out of bounds of "
                         f"its current constraints, {constraint}. "
